@@ -5,6 +5,7 @@ import Drpc.Tie.Expected
   model mirrors has the fingerprint the model was written against; sentinel messages and the
   documented state graph are the ones the suite and the theorems refer to.
 -/
+set_option maxRecDepth 100000
 namespace Drpc.Tie.C03
 open Drpc
 
